@@ -14,7 +14,7 @@ PROP = {'engine': 'tun',
                   'private send counters are set through harness/tun_access.h (explicit-instantiation access, or the planned friend hook)'],
  'assumptions': ['message ids distinct per source among deliverable packets (fewer than 2^32 Messages of one source in flight): explicit hypothesis of '
                  '`safety`',
-                 'no allocation failure, no partial datagram writes',
+                 'no allocation failure; a transport that returns 0 (would block) or a short count from Write() is modelled (Tunnel/Backpressure.lean) and correspondence-checked, without a general theorem',
                  'liveness: at most 2^32 Messages per queue (ids distinct), receiver MTU >= sender MTU, same magic, source not excluded; Messages over the '
                  "receiver's size limit are dropped, the others delivered (finding C12-oversize fixed by 79d1d2b)",
                  'SetAllowMiscIncomingData(false) for the safety theorems (misc data is delivered verbatim by design)'],
